@@ -478,8 +478,41 @@ def _lib_facts(repo: Repo, c: Cls, entries) -> Dict[Tuple, List[Tuple[Func, ast.
                     continue  # plain arithmetic on locals
                 if canon == "numpy.sqrt":
                     conf = tuple(sorted({"self." + a for x in call.args for a in self_attrs_in(x)}))
-                out.setdefault((canon, kws, conf), []).append((f, call))
+                out.setdefault((canon, kws, conf, _config_guards(repo, f, call)), []).append((f, call))
     return out
+
+
+def _config_guards(repo: Repo, f: Func, call: ast.Call) -> Tuple[str, ...]:
+    """Dominating tests of `call` that compare the estimator's configuration with a module-level object (the metric
+    against `cosine`, ...), in name-free value form with their polarity.  Tests on plain string options are the
+    input-format / method dispatch, which fit and transform organise differently, and are left out."""
+    from .common import _assigned_names, ancestors, parents_map
+
+    pm = parents_map(f.node)
+    local = (_assigned_names(f) | set(f.params)) - {"self"}
+    out = []
+    prev: ast.AST = call
+    for a in ancestors(call, pm):
+        if isinstance(a, ast.If):
+            in_body = any(prev is x or any(prev is y for y in ast.walk(x)) for x in a.body)
+            conj = a.test.values if isinstance(a.test, ast.BoolOp) and isinstance(a.test.op, ast.And) and in_body else [a.test]
+            for t in conj:
+                if not (isinstance(t, ast.Compare) and len(t.ops) == 1 and isinstance(t.ops[0], (ast.Eq, ast.NotEq, ast.Is, ast.IsNot))):
+                    continue
+                sides = [t.left, t.comparators[0]]
+                glob = [x for x in sides if isinstance(x, ast.Name) and x.id not in local and x.id in f.module.imports]
+                if not glob:
+                    continue
+                txt = value_form(t, f, a)
+                try:
+                    names = {n.id for n in ast.walk(ast.parse(txt, mode="eval")) if isinstance(n, ast.Name)}
+                except SyntaxError:
+                    continue
+                if any(n in local or (n.startswith("M") and n[1:].isdigit()) for n in names):
+                    continue
+                out.append(("" if in_body else "not ") + txt)
+        prev = a
+    return tuple(sorted(set(out)))
 
 
 def r2_6(repo: Repo) -> RuleResult:
@@ -489,14 +522,21 @@ def r2_6(repo: Repo) -> RuleResult:
         ff = _lib_facts(repo, c, ("fit", "fit_transform"))
         tf = _lib_facts(repo, c, ("transform",))
         for key, sites in tf.items():
-            canon, kws, conf = key
+            canon, kws, conf, guards = key
             for f, call in sites:
                 if (f.key, call.lineno) in seen:
                     continue
                 seen.add((f.key, call.lineno))
                 construct = "%s(%s)" % (canon.rsplit(".", 1)[1], ", ".join(["%s=%s" % kv for kv in kws] + list(conf)))
                 if key in ff:
-                    rr.ok(f, construct, "same transformation on the fit path (%s:%d)" % (ff[key][0][0].qualname, ff[key][0][1].lineno), call.lineno)
+                    rr.ok(f, construct, "same transformation on the fit path (%s:%d)%s" % (ff[key][0][0].qualname, ff[key][0][1].lineno,
+                                                                                        " under the same configuration test(s) %s" % list(guards) if guards else ""), call.lineno)
+                elif any(k[:3] == key[:3] for k in ff):
+                    other = sorted({k[3] for k in ff if k[:3] == key[:3]})
+                    rr.bad(f, construct,
+                           "the transform path applies %s under the configuration test(s) %s, the fit path of %s under %s: for the settings on "
+                           "which the two differ, training data and new data go through different transformations"
+                           % (construct, list(guards) or "none", c.name, [list(o) or "none" for o in other]), call.lineno)
                 elif not any(k[0] == canon for k in ff):
                     # the fit path never applies this library transformation at all (e.g. a model that is fitted on
                     # raw counts and normalises rows only when transforming): nothing to disagree with
